@@ -72,7 +72,7 @@ def gen_cases(chk):
         kw = dict(hash_type=ht, flags=0, comp_type=2, chunk_hash_type=cht, chunks=chunks, body=b"",
                   data_digest=r.randbytes(DIGEST_SIZE[ht]), detached=r.random() < 0.2)
         m = r.choice(["count", "count", "bigint-field", "overlong", "wrap64", "int31", "int31", "size63", "sum-overflow", "flags", "types",
-                      "index_size", "header_size", "sig", "zero-entries", "trailing-index"])
+                      "index_size", "header_size", "sig", "zero-entries", "trailing-index", "opt-size", "opt-rewind", "opt-rewind"])
         desc = m
         if m == "count":
             kw["count"] = r.choice([0, nch - 1, nch + 1, nch + 7, 1 << 33, (1 << 64) - 1])
@@ -138,6 +138,34 @@ def gen_cases(chk):
             kw["count"] = r.choice([0, 1])
         elif m == "trailing-index":
             kw["index_tail"] = r.randbytes(r.choice([1, 3, cds]))
+        elif m == "opt-size":
+            # an optional element that declares more data than the header holds
+            kw["flags"] = 2
+            els = [(r.randrange(0, 9), r.randbytes(r.choice([0, 3, 40]))) for _ in range(r.randrange(0, 3))]
+            v = r.choice([1 << 20, 1 << 32, 1 << 63, (1 << 63) + 7, (1 << 64) - 1, (1 << 64) - 2, 5000])
+            els.insert(r.randrange(len(els) + 1), (7, (v, r.randbytes(r.choice([0, 2, 30])))))
+            kw["opt_elems"] = els
+            desc += ":%d" % v
+        elif m == "opt-rewind":
+            # an optional element whose declared size is 2^64 - b: added to the parse position it moves the position BACK by b bytes.
+            # An earlier element carries a complete alternative rest-of-header (index size, index, signature count) exactly there, so
+            # a parser that lets the position wrap finds a well-formed - and different - chunk table.
+            kw["flags"] = 2
+            dcds = DIGEST_SIZE[cht]
+            dn = r.choice([1, 2, 3])
+            didx = zckref.ci_encode(cht) + zckref.ci_encode(dn + 1) + bytes(dcds) + zckref.ci_encode(0) + zckref.ci_encode(0)
+            for _ in range(dn):
+                didx += r.randbytes(dcds) + zckref.ci_encode(r.randrange(1, 5000)) + zckref.ci_encode(r.randrange(1, 9000))
+            decoy = zckref.ci_encode(len(didx)) + didx + zckref.ci_encode(0)
+            lead_in = r.randbytes(r.choice([0, 0, 5]))       # the alternative tail need not start the element
+            eid = r.choice([2, 200])
+            back = len(decoy) + len(zckref.ci_encode(eid)) + 10   # 10: encoded length of any value 2^64 - small
+            if r.random() < 0.25:
+                back += r.choice([-1, 1, len(lead_in) + 1])      # near misses: land next to the alternative tail
+            kw["opt_elems"] = [(1, lead_in + decoy), (eid, ((1 << 64) - back, b""))]
+            if r.random() < 0.3:
+                kw["opt_elems"].append((3, r.randbytes(4)))
+            desc += ":back=%d" % back
         out.append({"kind": "mut", "spec": _ser(kw), "desc": desc, "i": i})
     return out
 
@@ -157,7 +185,7 @@ def _ser(kw):
         elif k == "chunks":
             o[k] = [[c[0].hex(), c[1].hex() if c[1] is not None else None, c[2], c[3]] for c in v]
         elif k in ("opt_elems", "sigs") and v is not None:
-            o[k] = [[a, b.hex()] for a, b in v]
+            o[k] = [[a, ([b[0], b[1].hex()] if isinstance(b, tuple) else b.hex())] for a, b in v]
         else:
             o[k] = v
     return o
@@ -173,7 +201,7 @@ def _deser(o):
         elif k == "chunks":
             kw[k] = [(bytes.fromhex(c[0]), bytes.fromhex(c[1]) if c[1] is not None else None, c[2], c[3]) for c in v]
         elif k in ("opt_elems", "sigs") and v is not None:
-            kw[k] = [(a, bytes.fromhex(b)) for a, b in v]
+            kw[k] = [(a, ((b[0], bytes.fromhex(b[1])) if isinstance(b, list) else bytes.fromhex(b))) for a, b in v]
         else:
             kw[k] = v
     return kw
